@@ -14,7 +14,11 @@ RULE = ('files rendered from abstract records: 1-4 records, header fields with c
         'random commas, qualifiers quoted (also containing "=", multi-line), numeric, unquoted words and flags; ORIGIN in 6x10 '
         'blocks; every case is read with read, iter_ and read_fts under a random exclude tuple; 8% of the cases are mutated raw '
         'texts (outside the domain, compared on raises/does not raise only); non-trivial = in-domain case with a compound or partial '
-        'location, a wrapped location, a multi-line qualifier, a flag, several records or a non-empty exclude')
+        'location, a wrapped location, a multi-line qualifier, a flag, several records or a non-empty exclude; plus a history stream '
+        '(about 300 histories in the quick tier): several read / iter_ / read_fts calls in one process on the same and on colliding files - the '
+        'same location text bare and inside complement()/join() in both orders, the same file under different exclude tuples in both '
+        'orders, results mutated in place before the next call - every result compared with the pure model right after its call and '
+        'again after all later calls')
 TRUSTED = ['CPython str methods used by the reader (strip, split, startswith, index, replace, upper, lower, int) - modelled on Latin-1 '
            'and compared on every case',
            'io.StringIO line iteration (modelled as split at "\\n")',
@@ -473,7 +477,7 @@ def mutate(rng, text):
 
 
 def gen_cases(rng, tier):
-    n = 18000 if tier == 'thorough' else 700
+    n = 17000 if tier == 'thorough' else 600
     cases = []
     # small systematic box: every leaf form under every wrapper
     leaves = [['p', False, False, 7], ['p', True, False, 7], ['p', False, True, 7], ['r', False, 3, False, 9], ['r', True, 3, False, 9],
@@ -575,6 +579,267 @@ def python_snippet(case):
             "print(len(sugar.read_fts(io.StringIO(text), 'genbank', exclude=ex)))\n") % (text_of(case), tuple(case['excl']))
 
 
+# ----------------------------------------------------------------------------- history / state-independence stream
+# A history case {'files': [recs, ...], 'steps': [{'f': i, 'api': 'read'|'iter'|'fts', 'excl': [...], 'mut': bool}, ...]} makes several
+# calls in ONE process on the same and on related texts (the same location text bare and inside complement(...), the same file
+# under different exclude tuples, files that collide on id / length / location text), keeps every result object alive, mutates
+# some results in place, and serialises every result twice: right after its call and again after all later calls.  The model is
+# pure: the expected value of every step is the model applied to that step's file and exclude tuple.
+
+_single = dict(model_term=model_term, split_model=split_model, impl=impl, agree=agree, spec=spec, nontrivial=nontrivial,
+               histkey=histkey, features=features, python_snippet=python_snippet, gen_cases=gen_cases)
+APIS = {'read': 0, 'iter': 1, 'fts': 2}
+
+
+def _is_hist(case):
+    return 'steps' in case
+
+
+def model_term(case):
+    if not _is_hist(case):
+        return _single['model_term'](case)
+    try:
+        terms = []
+        for st in case['steps']:
+            recs = case['files'][st['f']]
+            render_gb(recs)
+            terms.append('run_C10 %s %s' % (coq_list([coq_bs(x) for x in st['excl']]), coq_list([rec_term(r) for r in recs])))
+        return 'out (VL %s)' % coq_list(terms)
+    except Exception:
+        return 'out (VL [VL [VB false; VI 0; VI 0; VB false; VL [VNone; VNone]]])'
+
+
+def split_model(case, m):
+    if not _is_hist(case):
+        return _single['split_model'](case, m)
+    steps = [{'wf': bool(x[0]), 'len': x[1], 'hash': x[2], 'viewok': x[3], 'res': [x[4][0], x[4][0], x[4][1]]} for x in m]
+    wf = all(x['wf'] for x in steps) and len(steps) == len(case['steps'])
+    return wf, {'wf': wf, 'steps': steps}
+
+
+def _mutate_result(api, objs):
+    """in-place edits of a result that a correct reader can never see again"""
+    fts = objs if api == 'fts' else [ft for s in objs for ft in (s.meta.get('fts') or [])]
+    for ft in fts:
+        for l in ft.locs:
+            l.strand = '-' if str(l.strand) == '+' else '+'
+            l.start, l.stop = l.start + 7, l.stop + 11
+            l.defect = 3
+        g = ft.meta._genbank
+        for k in list(g):
+            g[k] = 'MUTATED'
+        g['extra'] = 1
+        ft.meta.seqid = 'mutated'
+        ft.meta.type = 'mutated'
+    if api != 'fts':
+        for s in objs:
+            s.data = 'N' * len(s.data)
+            s.meta.id = 'mutated'
+            if s.meta.get('fts') is not None:
+                s.meta.fts.data.reverse()
+                if len(s.meta.fts) > 1:
+                    s.meta.fts.pop()
+    else:
+        objs.data.reverse()
+
+
+def _impl_hist(case):
+    import sugar
+    texts = [render_gb(recs) for recs in case['files']]
+    live, out = [], []
+    for st in case['steps']:
+        text, ex, api = texts[st['f']], tuple(st['excl']), st['api']
+        try:
+            if api == 'read':
+                objs = sugar.read(io.StringIO(text), 'genbank', exclude=ex)
+            elif api == 'iter':
+                objs = list(sugar.iter_(io.StringIO(text), 'genbank', exclude=ex))
+            else:
+                objs = sugar.read_fts(io.StringIO(text), 'genbank', exclude=ex)
+            snap = [_ft(f) for f in objs] if api == 'fts' else [_seq(s) for s in objs]
+        except Exception as e:
+            objs, snap = None, canon_exc(e)
+        live.append(objs)
+        out.append({'len': len(text), 'hash': text_hash(text), 'first': snap, 'last': None})
+        if st.get('mut') and objs is not None:
+            _mutate_result(api, objs)
+    for st, objs, o in zip(case['steps'], live, out):          # every earlier result once more, after all later calls
+        if objs is None or st.get('mut'):
+            o['last'] = o['first']
+        else:
+            o['last'] = [_ft(f) for f in objs] if st['api'] == 'fts' else [_seq(s) for s in objs]
+    return {'steps': out}
+
+
+def impl(case):
+    return _impl_hist(case) if _is_hist(case) else _single['impl'](case)
+
+
+def agree(case, iv, mv):
+    if not _is_hist(case):
+        return _single['agree'](case, iv, mv)
+    if _raised(iv) or not isinstance(mv, dict) or len(iv['steps']) != len(mv['steps']):
+        return False
+    for st, i, m in zip(case['steps'], iv['steps'], mv['steps']):
+        if i['len'] != m['len'] or i['hash'] != m['hash']:
+            return False
+        exp = m['res'][APIS[st['api']]]
+        if not mv['wf']:
+            if _raised(i['first']) != _raised(exp):
+                return False
+            continue
+        if m['viewok'] is not True or i['first'] != exp or i['last'] != exp:
+            return False
+    return True
+
+
+def spec(case, iv):
+    if not _is_hist(case):
+        return _single['spec'](case, iv)
+    if _raised(iv):
+        return 'driver raised %s' % iv['e']
+    for n, (st, i) in enumerate(zip(case['steps'], iv['steps'])):
+        exp_recs, exp_fts = expected({'excl': st['excl'], 'recs': case['files'][st['f']]})
+        exp = exp_fts if st['api'] == 'fts' else exp_recs
+        for when in ('first', 'last'):
+            got = i[when]
+            if _raised(got):
+                return 'step %d (%s file %d exclude=%s) raised %s' % (n, st['api'], st['f'], st['excl'], got['e'])
+            if got != exp:
+                d = next(((g, x) for g, x in zip(got, exp) if g != x), (got, exp))
+                return ('step %d (%s file %d exclude=%s), %s: got %s expected %s' %
+                        (n, st['api'], st['f'], st['excl'],
+                         'right after the call' if when == 'first' else 'result changed by a LATER call',
+                         json.dumps(d[0])[:260], json.dumps(d[1])[:260]))
+    return None
+
+
+def nontrivial(case, iv):
+    if not _is_hist(case):
+        return _single['nontrivial'](case, iv)
+    marks = {'history'}
+    if any(st.get('mut') for st in case['steps']):
+        marks.add('mutated-result')
+    if len({json.dumps(st['excl']) for st in case['steps']}) > 1:
+        marks.add('exclude-varies')
+    if len(case['files']) > 1:
+        marks.add('several-files')
+    return sorted(marks)
+
+
+def histkey(case, iv):
+    if not _is_hist(case):
+        return _single['histkey'](case, iv)
+    return ['history', 'history-steps=%d' % len(case['steps']), 'history-files=%d' % len(case['files'])]
+
+
+def features(case, iv):
+    if not _is_hist(case):
+        return _single['features'](case, iv)
+    return {'history': True, 'key_in_reserved_set': False, 'exclude_fts': any('fts' in st['excl'] for st in case['steps']), 'raw': False}
+
+
+def python_snippet(case):
+    if not _is_hist(case):
+        return _single['python_snippet'](case)
+    return ("import io, sugar\ntexts = %r\nsteps = %r\nlive = []\n"
+            "def show(objs):\n"
+            "    fts = objs if not hasattr(objs[0] if len(objs) else None, 'data') else [f for s in objs for f in (s.meta.get('fts') or [])]\n"
+            "    return [(getattr(s, 'id', None), str(s) if hasattr(s, 'data') else None) for s in objs], "
+            "[(f.type, [(l.start, l.stop, str(l.strand), int(l.defect)) for l in f.locs], dict(f.meta._genbank), f.meta.get('seqid')) for f in fts]\n"
+            "for st in steps:\n"
+            "    fn = {'read': sugar.read, 'iter': lambda *a, **k: list(sugar.iter_(*a, **k)), 'fts': sugar.read_fts}[st['api']]\n"
+            "    objs = fn(io.StringIO(texts[st['f']]), 'genbank', exclude=tuple(st['excl']))\n"
+            "    live.append(objs); print('call ', st, show(objs))\n"
+            "for st, objs in zip(steps, live):\n    print('later', st, show(objs))\n"
+            "# (steps with mut=True additionally edit their result in place, see tools/props/c10.py _mutate_result)\n"
+            ) % ([render_gb(r) for r in case['files']], case['steps'])
+
+
+def _hrec(fts, acc='AB000001', seq='acgtacgtacgtacgtacgtacgtacgtacgtacgtacgt', defn='history record'):
+    return {'hdr': [{'k': 'LOCUS', 'v': ['%s %d bp DNA' % (acc, len(seq))], 'subs': []},
+                    {'k': 'DEFINITION', 'v': [defn], 'subs': []}, {'k': 'ACCESSION', 'v': [acc], 'subs': []}],
+            'fts': fts, 'seq': seq, 'blank': False}
+
+
+def _hft(loc, key='CDS', quals=None, wrap=()):
+    return {'key': key, 'loc': loc, 'wrap': list(wrap), 'quals': [list(q) for q in (quals if quals is not None else
+            [['t', 'note', ['n=1']], ['n', 'codon_start', 1], ['t', 'translation', ['MKV', 'LLA']], ['f', 'pseudo']])]}
+
+
+def gen_histories(rng, tier):
+    R = lambda a, b: ['r', False, a, False, b]
+    hs = []
+    # (1) the same location text bare and inside complement(...) / join(...): one file and two files, both orders, every entry point
+    texts = [R(1, 10), ['r', True, 3, True, 9], ['p', False, False, 7], ['j', [R(1, 10), R(20, 30)]], ['o', [R(2, 4), ['p', False, False, 9]]],
+             ['d', 3, 9]]
+    for L in texts:
+        forms = [L, ['c', L], ['c', ['c', L]], ['j', [L, R(35, 38)]], ['c', ['j', [L, R(35, 38)]]]]
+        for a, b in ((0, 1), (1, 0), (0, 4), (4, 0), (3, 1), (1, 3), (2, 1)):
+            one = [[_hrec([_hft(forms[a]), _hft(forms[b], key='gene')])]]
+            two = [[_hrec([_hft(forms[a])])], [_hrec([_hft(forms[b])])]]
+            for files in (one, two):
+                nf = len(files)
+                seqs = [[('read', 0), ('read', nf - 1), ('iter', 0), ('fts', nf - 1), ('read', 0)],
+                        [('fts', 0), ('iter', nf - 1), ('fts', 0), ('read', nf - 1)]]
+                for sq in (seqs if L is texts[0] or a + b == 1 else seqs[:1]):
+                    hs.append({'files': files, 'steps': [{'f': f, 'api': api, 'excl': [], 'mut': False} for api, f in sq]})
+    # (2) the same file under different exclude tuples, in both orders; (3) results mutated before the next read
+    base = [_hrec([_hft(['c', ['j', [R(1, 10), R(20, 30)]]]), _hft(R(1, 10), key='gene'), _hft(['c', R(1, 10)], key='mRNA')]),
+            _hrec([_hft(R(1, 10))], acc='AB000002', seq='ttttggggcc')]
+    EX = [[], ['seq'], ['translation'], ['fts'], ['seq', 'translation'], ['translation', 'fts']]
+    for e1 in EX:
+        for e2 in EX:
+            if e1 != e2:
+                for api in (('read', 'iter') if len(hs) % 2 else ('iter', 'read')):
+                    hs.append({'files': [base], 'steps': [{'f': 0, 'api': api, 'excl': e1, 'mut': False},
+                                                         {'f': 0, 'api': 'fts' if 'fts' not in e2 and len(hs) % 3 == 0 else api, 'excl': e2, 'mut': False},
+                                                         {'f': 0, 'api': api, 'excl': e1, 'mut': False}]})
+    for api in ('read', 'iter', 'fts'):
+        for api2 in ('read', 'iter', 'fts'):
+            hs.append({'files': [base], 'steps': [{'f': 0, 'api': api, 'excl': [], 'mut': True}, {'f': 0, 'api': api2, 'excl': [], 'mut': False},
+                                                 {'f': 0, 'api': api, 'excl': ['translation'], 'mut': True}, {'f': 0, 'api': api2, 'excl': ['translation'], 'mut': False},
+                                                 {'f': 0, 'api': api, 'excl': [], 'mut': False}]})
+    # (4) random histories over related files: variants that collide on accession, length, location texts, qualifier keys
+    n = 400 if tier == 'thorough' else 60
+    for _ in range(n):
+        r0 = g_rec(rng, 0)
+        r0['fts'] = r0['fts'][:3]
+        for f in r0['fts']:
+            f['quals'] = f['quals'][:3]
+        r0['seq'] = r0['seq'][:70]
+        files = [[r0]]
+        for _k in range(rng.choice([1, 1, 2])):
+            v = json.loads(json.dumps(r0))
+            for f in v['fts']:
+                c = rng.random()
+                if c < 0.4:
+                    f['loc'] = ['c', f['loc']]
+                elif c < 0.6:
+                    f['loc'] = ['j', [f['loc']]]
+                f['wrap'] = []
+                for q in f['quals']:
+                    if q[0] == 't' and rng.random() < 0.5:
+                        q[2] = [x[::-1] for x in q[2]]
+                    elif q[0] == 'n' and rng.random() < 0.5:
+                        q[2] = q[2] + 1
+            if rng.random() < 0.5:
+                v['seq'] = v['seq'][::-1]
+            if rng.random() < 0.3:
+                v['fts'] = v['fts'][::-1]
+            files.append([v] if rng.random() < 0.7 else [v, r0])
+        steps = []
+        for _k in range(rng.choice([3, 4, 5, 6])):
+            steps.append({'f': rng.randrange(len(files)), 'api': rng.choice(['read', 'iter', 'fts']),
+                          'excl': rng.choice([[], [], ['seq'], ['translation'], ['fts'], ['seq', 'translation']]), 'mut': rng.random() < 0.3})
+        hs.append({'files': files, 'steps': steps})
+    return hs
+
+
+def gen_cases(rng, tier):
+    return gen_histories(rng, tier) + _single['gen_cases'](rng, tier)
+
+
 LEVEL_TEXT = ('Machine-checked Coq theorems about the Gallina model of sugar/_io/genbank.py (with Location/LocationTuple/Feature construction). '
               'C10_read_render (general, unbounded): for every list of well-formed abstract records and every exclude tuple, the reader applied '
               'to the rendered GenBank text returns exactly the specification view, and read_fts returns the concatenated features. '
@@ -604,5 +869,7 @@ LEVEL_NOTE = ('All 13 theorems are closed under the global context. Proved for a
               'form, locs None, empty list - _parse_locs always returns at least one Location -, non-Location items), Feature.__init__ 6/7 '
               '(line 283 meta None: the reader always passes meta). Trusted: Coq kernel/vm_compute, tools/gens/flags.py, the harness, '
               'CPython str methods, io.StringIO. The model uses primitive Uint63 only in the text hash of the harness entry point; no theorem '
-              'depends on it.')
+              'depends on it. State independence (caches with incomplete keys, shared Location/Feature objects, effects of one call on another) is '
+              'tested, not proved: the model is pure, and the history stream (corpus/C10/a_histories.json + ~250 generated histories per quick '
+              'run) compares every result of several calls in one process with it, right after the call and again after all later calls.')
 TECHNIQUE = 'Coq proof (reader . render = view, for all well-formed record lists) + executable Gallina model tied to sugar by differential testing'
